@@ -19,6 +19,20 @@ package h_c08
 //	                    their own keys).
 //
 // Every reading is a maximum over what was observed (permissive from above).
+//
+// Alias questions (a name below alias.p. DNAME c.p., or cn.p. / cnx.p. CNAME into c.p.): the reply is COMPOSED of the
+// outer zone's alias records (learned through p.'s lineage) and of the leg — what the c.p. servers say about the
+// target, an answer or a denial (learned through c.p.'s lineage). It is learned through BOTH lineages:
+//
+//	data[outer|type|cd]  the composed reply as one unit: min(lease of every delegation contacted in the ask,
+//	                     and — when no c.p.-side exchange for the leg ran in the ask, i.e. the leg came from memory —
+//	                     the deadline under which the leg was in memory at that instant)
+//	sub[outer|type]      the outer records alone (p.'s lineage)
+//
+// and may be served from memory while EITHER reading allows it: data[outer] (an implementation that stores the composed
+// reply) or min(sub[outer], what the leg's own question may be served under now) (an implementation that stores the
+// alias and re-derives the leg from its own entry). TTLs shown are judged per lineage: the alias records (CNAME / DNAME
+// owned outside c.p.) against the outer side, the target's records or the SOA / proof of its denial against the leg's.
 
 import (
 	"fmt"
@@ -158,6 +172,14 @@ func vkSOAServer(m *dns.Msg) string {
 	if m == nil || len(m.Answer) > 0 {
 		return ""
 	}
+	return vkSOAServerAny(m)
+}
+
+// vkSOAServerAny is vkSOAServer for a composed (alias) reply, whose answer section holds the alias records.
+func vkSOAServerAny(m *dns.Msg) string {
+	if m == nil {
+		return ""
+	}
 	for _, rr := range m.Ns {
 		if soa, ok := rr.(*dns.SOA); ok {
 			switch zonemodel.Canon(soa.Hdr.Name) {
@@ -183,6 +205,64 @@ func vkAllowedNeg(neg map[string]*vkDatum, m *dns.Msg) (time.Time, string) {
 		return d.deadline, "denial learned by " + d.what
 	}
 	return time.Time{}, ""
+}
+
+// vkAllowedNegLeg is vkAllowedNeg for the denial that ends a composed (alias) reply.
+func vkAllowedNegLeg(neg map[string]*vkDatum, m *dns.Msg) (time.Time, string) {
+	if m == nil || (m.Rcode != dns.RcodeNameError && m.Rcode != dns.RcodeSuccess) {
+		return time.Time{}, ""
+	}
+	if d := neg[vkSOAServerAny(m)]; d != nil {
+		return d.deadline, "denial learned by " + d.what
+	}
+	return time.Time{}, ""
+}
+
+// ---------------------------------------------------------------- alias questions
+
+// vkAliasQs are the questions whose reply is composed through an alias leg into the leased zone c.p.
+var vkAliasQs = []vkEv{
+	{K: "q", Name: "www.alias.p.", Type: dns.TypeA},  // DNAME -> www.c.p.: positive at the old and at the new child
+	{K: "q", Name: "late.alias.p.", Type: dns.TypeA}, // DNAME -> late.c.p.: NXDOMAIN at the old child, positive marker at the new one
+	{K: "q", Name: "cn.p.", Type: dns.TypeA},         // CNAME -> www.c.p.
+	{K: "q", Name: "cnx.p.", Type: dns.TypeA},        // CNAME -> late.c.p.
+}
+
+// vkLegQ is the direct question for the denied leg (so that a composed reply can find its leg in memory).
+var vkLegQ = vkEv{K: "q", Name: vkLate, Type: dns.TypeA}
+
+// vkAliasLeg returns the name in c.p. an alias question is redirected to ("" = not an alias question).
+func vkAliasLeg(name string) string {
+	switch zonemodel.Canon(name) {
+	case "www.alias.p.", "cn.p.":
+		return "www.c.p."
+	case "late.alias.p.", "cnx.p.":
+		return vkLate
+	}
+	return ""
+}
+
+// vkAliasPre is the reference's pre-ask view of an alias question.
+type vkAliasPre struct {
+	leg       string
+	composed  time.Time // data[outer]: the composed reply as one unit
+	compWhat  string
+	outer     time.Time // sub[outer]: the outer records alone
+	outerWhat string
+	legD      time.Time // what the leg's own question may be served under
+	legWhat   string
+}
+
+func (r *vkRef) aliasPre(ev vkEv, leg string) *vkAliasPre {
+	a := &vkAliasPre{leg: leg, compWhat: "no composed reply was ever learned", outerWhat: "the alias records were never learned"}
+	if d := r.data[vkDKey(ev.Name, ev.Type, ev.CD)]; d != nil {
+		a.composed, a.compWhat = d.deadline, "composed reply learned by "+d.what
+	}
+	if d := r.sub[vkSKey(ev.Name, ev.Type)]; d != nil {
+		a.outer, a.outerWhat = d.deadline, "alias records learned by "+d.what
+	}
+	a.legD, a.legWhat = r.allowed(leg, ev.Type, ev.CD)
+	return a
 }
 
 // allowed returns the permissive deadline for serving (name, type, cd) from memory.
@@ -306,7 +386,7 @@ func vkContent(ev vkEv, m *dns.Msg) string {
 			switch x.A.String() {
 			case vkOldA, vkOldGA:
 				return "old"
-			case vkNewA:
+			case vkNewA, vkNewLate:
 				return "new"
 			}
 		case *dns.NS:
@@ -347,13 +427,21 @@ func (w *vkWorld) query(ev vkEv) vkStep {
 	t0 := vtime.Now()
 	pre := cache.VerifC08Peek(w.pl.Cache(), q, ev.CD, t0)
 	preDeadline, preWhat := w.ref.allowed(ev.Name, ev.Type, ev.CD) // what memory may serve, judged BEFORE anything is re-learned
+	// an alias question: the entry of its leg can be hit (and refreshed) by the same ask
+	leg := vkAliasLeg(ev.Name)
+	var al *vkAliasPre
+	var preLeg cache.VerifC08Entry
+	if leg != "" {
+		al = w.ref.aliasPre(ev, leg)
+		preLeg = cache.VerifC08Peek(w.pl.Cache(), dns.Question{Name: leg, Qtype: ev.Type, Qclass: dns.ClassINET}, ev.CD, t0)
+	}
 	preNeg := map[string]*vkDatum{}
 	for k, d := range w.ref.neg {
 		preNeg[k] = d
 	}
 	n0 := len(w.exchanges())
 	r := w.pl.Ask(ev.Name, ev.Type, h_resolver.Flags{CD: ev.CD, DO: w.key.dnssec}, "tcp")
-	if pre.Found && !w.waitIdle(pre.Handle) { // only a hit on this entry can have started a refresh
+	if (pre.Found || preLeg.Found) && !w.waitIdle(pre.Handle, preLeg.Handle) { // only a hit on these entries can have started a refresh
 		return vkStep{Viol: "harness: background refresh did not finish within 7 s", Class: "harness-wait", Elapsed: r.Elapsed}
 	}
 	t1 := vtime.Now()
@@ -389,12 +477,91 @@ func (w *vkWorld) query(ev vkEv) vkStep {
 		st.Outcome = label
 		return st
 	}
+	// Alias question: did a c.p.-side exchange for the leg run in this ask (the ask itself or a refresh it started)?
+	// If not, whatever the reply says about the leg came from memory, under the deadline the leg's own question had.
+	legFromNet := false
+	legTerm, legWhat := vkForever, "the leg was resolved over the network in this ask"
+	legData := leg != "" && (content == "old" || content == "new") // the reply carries data of the c.p. servers
+	if leg != "" {
+		for _, e := range ex {
+			if e.AA && e.QName == leg && e.QType == ev.Type && (e.Rcode == dns.RcodeSuccess || e.Rcode == dns.RcodeNameError) {
+				legFromNet = true
+			}
+		}
+		if !legFromNet {
+			legTerm, legWhat = al.legD, "leg "+leg+" "+al.legWhat
+			if validating {
+				if d, wh := vkAllowedNegLeg(preNeg, m); d.After(legTerm) {
+					legTerm, legWhat = d, "leg "+leg+" "+wh
+				}
+			}
+			if legData && len(ex) > 0 {
+				label += "+legmem"
+			}
+		}
+	}
 	dk := vkDKey(ev.Name, ev.Type, ev.CD)
 	if len(ex) > 0 && m.Rcode != dns.RcodeServerFailure {
 		// (re)learned through the network — by the ask itself or by the refresh that followed the hit
-		w.ref.note(w.ref.data, dk, learned, t1, fmt.Sprintf("%s at %s", ev, w.rel(t0)))
+		what := fmt.Sprintf("%s at %s", ev, w.rel(t0))
+		if legData && !legFromNet {
+			// composed with a leg taken from memory: learned through the leg's lineage as well
+			learned = vkMinT(learned, legTerm)
+			what += " (leg from memory: " + legWhat + ")"
+		}
+		w.ref.note(w.ref.data, dk, learned, t1, what)
 	}
-	if fromMemory && m.Rcode != dns.RcodeServerFailure {
+	if leg != "" && !fromMemory && legData && !legFromNet && m.Rcode != dns.RcodeServerFailure && !legTerm.After(t0) {
+		// (a) for the leg alone: the outer records were fetched, the leg's data was not
+		st.Viol = fmt.Sprintf("%s at %s: the reply carries %s data of the c.p. servers for the leg %s although no c.p.-side exchange for it ran in this ask and the lease it was in memory under ended at %s (%s): %s; upstream: [%s]",
+			ev, w.rel(t0), content, leg, w.rel(legTerm), legWhat, vkMsgStr(m), vkExStr(ex))
+		st.Class = "served-past-lease/" + vkQClass(ev) + "-leg"
+		return st
+	}
+	if fromMemory && m.Rcode != dns.RcodeServerFailure && leg != "" {
+		// (a) composed reply from memory: legal while the composed unit's lease runs, or while the outer records' AND the
+		// leg's leases run
+		dAll := al.composed
+		if x := vkMinT(al.outer, legTerm); x.After(dAll) {
+			dAll = x
+		}
+		if !dAll.After(t0) {
+			st.Viol = fmt.Sprintf("%s answered from memory at %s with %s data although the leases it was learned under ended at %s (composed: %s [%s]; outer: %s [%s]; leg: %s [%s]): %s",
+				ev, w.rel(t0), content, w.rel(dAll), w.rel(al.composed), al.compWhat, w.rel(al.outer), al.outerWhat, w.rel(legTerm), legWhat, vkMsgStr(m))
+			st.Class = "served-past-lease/" + vkQClass(ev)
+			return st
+		}
+		// (c) per lineage
+		dOuter, dLeg := al.composed, al.composed
+		if al.outer.After(dOuter) {
+			dOuter = al.outer
+		}
+		if legTerm.After(dLeg) {
+			dLeg = legTerm
+		}
+		for _, sec := range [][]dns.RR{m.Answer, m.Ns} {
+			for _, rr := range sec {
+				if rr.Header().Rrtype == dns.TypeOPT {
+					continue
+				}
+				// the alias records (CNAME / DNAME and their signatures, owned outside c.p.) are the outer side;
+				// everything else — the target's records, or the SOA / proof of its denial — is the leg's side,
+				// and fresh when the leg was resolved over the network in this ask (fresh TTLs are not judged)
+				lim, side := dLeg, "leg"
+				if t := rr.Header().Rrtype; !dns.IsSubDomain(vkZoneC, zonemodel.Canon(rr.Header().Name)) && (t == dns.TypeCNAME || t == dns.TypeDNAME || t == dns.TypeRRSIG) {
+					lim, side = dOuter, "outer"
+				} else if legFromNet {
+					continue
+				}
+				if rem := lim.Sub(t0).Seconds(); float64(rr.Header().Ttl) > rem+0.05 {
+					st.Viol = fmt.Sprintf("%s answered from memory at %s shows TTL %d on %s (%s side) but only %.3fs of that lease remain (composed: %s [%s]; outer: %s [%s]; leg: %s [%s]): %s",
+						ev, w.rel(t0), rr.Header().Ttl, rr.Header().Name, side, rem, w.rel(al.composed), al.compWhat, w.rel(al.outer), al.outerWhat, w.rel(legTerm), legWhat, vkMsgStr(m))
+					st.Class = "ttl-exceeds-lease/" + vkQClass(ev)
+					return st
+				}
+			}
+		}
+	} else if fromMemory && m.Rcode != dns.RcodeServerFailure {
 		// (a) data learned through a delegation whose lease has ended is not served
 		deadline, what := preDeadline, preWhat
 		if validating {
@@ -445,8 +612,12 @@ func (w *vkWorld) query(ev vkEv) vkStep {
 func vkQClass(ev vkEv) string {
 	n := zonemodel.Canon(ev.Name)
 	switch {
-	case n == "nx.c.p.":
+	case n == "nx.c.p." || n == vkLate:
 		return "negative"
+	case vkAliasLeg(n) == vkLate:
+		return "alias-negative"
+	case vkAliasLeg(n) != "":
+		return "alias-answer"
 	case ev.Type == dns.TypeDS:
 		return "ds"
 	case ev.Type == dns.TypeDNSKEY:
@@ -510,7 +681,7 @@ func (w *vkWorld) digest() (string, bool) {
 			}
 		}
 	}
-	for _, q := range append(append([]vkEv{}, vkAlphabetQs...), vkExtraQs...) {
+	for _, q := range append(append(append(append([]vkEv{}, vkAlphabetQs...), vkExtraQs...), vkAliasQs...), vkLegQ) {
 		for _, cd := range []bool{false, true} {
 			e := cache.VerifC08Peek(w.pl.Cache(), dns.Question{Name: q.Name, Qtype: q.Type, Qclass: dns.ClassINET}, cd, now)
 			if e.Found && e.Remaining > 0 {
